@@ -1,1 +1,138 @@
-(* Props/C15.v -- stub, to be filled *)
+(* C15 -- the Rust type chosen for an INTEGER can hold every permitted value.
+   This file only pins statements; the model is Front/IntTy.v, proofs live in Front/IntTyProofs.v.
+
+   Vocabulary.  A source range [r] is plain INTEGER or INTEGER (lo..hi[,...]) with bounds [Lit z] or [Kw]
+   (MIN resp. MAX).  [src_int_type m r] is the whole chain integer.rs (parse + resolve) -> rust.rs (type choice)
+   under cargo profile [m]; its result [t] carries the kind [rk t] and the Range kept in the Rust model.
+   [permitted lo hi v]: v satisfies the (root) constraint.  [rep64 lo v]: v is representable in 64 bits of the
+   signedness the lower bound calls for (negative or absent lower bound: i64, otherwise u64).
+   [fits k v]: v is a value of Rust type k.
+
+   Findings (model = crate, property fails; each has a witness below):
+     Known_no_lower_bound_unsigned (= Known_C15): lower bound MIN / plain INTEGER is taken as 0, the type is unsigned
+       (except INTEGER (MIN..h,...) with h < 0, which becomes i64)
+     Known_max_keyword_i64max_on_u64: upper bound MAX on a non-negative lower bound gives u64 whose kept upper
+       bound and value_max() are i64::MAX, not u64::MAX *)
+From A1 Require Import Front.IntTy Front.IntTyProofs.
+Local Open Scope Z_scope.
+
+(* a well-formed source range always gets a type: no resolve error and no panic in either profile *)
+Theorem C15_total : forall m r, wf_srange r -> exists t, src_int_type m r = Ok t.
+Proof. exact src_total. Qed.
+
+(* wide enough, right signedness: every permitted value within 64 bits is a value of the chosen type *)
+Theorem C15_holds_all : forall m r t,
+  wf_srange r -> ~ Known_C15 r -> src_int_type m r = Ok t ->
+  forall v, permitted (sr_lo r) (sr_hi r) v -> rep64 (sr_lo r) v -> fits (rk t) v.
+Proof. exact holds_all. Qed.
+
+(* narrowest: signed exactly when the lower bound is negative, and no kind that holds all permitted values is narrower *)
+Theorem C15_narrowest : forall m r t,
+  wf_srange r -> sr_ext r = false -> ~ Known_C15 r -> src_int_type m r = Ok t ->
+  signed (rk t) = needs_signed (sr_lo r) /\
+  forall k, (forall v, permitted (sr_lo r) (sr_hi r) v -> rep64 (sr_lo r) v -> fits k v) -> width (rk t) <= width k.
+Proof. exact narrowest. Qed.
+
+(* extensible ranges map to 64-bit types (no side condition at all) *)
+Theorem C15_ext_is_64 : forall m r t, sr_ext r = true -> src_int_type m r = Ok t -> width (rk t) = 64.
+Proof. exact ext_is_64. Qed.
+
+(* value_min()/value_max(): return type is the chosen kind, the text reads back as the declared bound
+   (a literal bound itself; for a keyword the extreme of the type) *)
+Theorem C15_accessors : forall m r t,
+  wf_srange r -> ~ Known_C15 r -> src_int_type m r = Ok t ->
+  exists a b, min_max_fn_text m t = Ok (rk t, a, b) /\
+              parse_num a = Some (declared_lo r (rk t)) /\
+              (~ Known_max_keyword_i64max_on_u64 r -> parse_num b = Some (declared_hi r (rk t))).
+Proof. exact accessors. Qed.
+
+(* the Range kept in the Rust model (from which the walker prints MIN/MIN_T/MAX/MAX_T/EXTENSIBLE) *)
+Theorem C15_declared_bounds : forall m r t,
+  wf_srange r -> ~ Known_C15 r -> src_int_type m r = Ok t ->
+  rext t = sr_ext r /\
+  (forall x, rmin t = Some x -> x = declared_lo r (rk t)) /\
+  (forall y, rmax t = Some y -> ~ Known_max_keyword_i64max_on_u64 r -> y = declared_hi r (rk t)).
+Proof. exact declared_bounds. Qed.
+
+(** refutations: the faithful model violates the property on the finding classes *)
+(* the class is tight: on EVERY well-formed range of Known_C15 some permitted 64-bit value does not fit *)
+Theorem C15_refuted_class : forall m r t,
+  wf_srange r -> Known_C15 r -> src_int_type m r = Ok t ->
+  exists v, permitted (sr_lo r) (sr_hi r) v /\ rep64 (sr_lo r) v /\ ~ fits (rk t) v.
+Proof. exact known_refuted. Qed.
+
+(* INTEGER (MIN..100) -> u8: -1 is permitted and not representable *)
+Ltac comp := first [ vm_compute; reflexivity | vm_compute; congruence | vm_compute; intuition congruence ].
+
+Theorem C15_refuted_no_lower_bound :
+  exists r t v, wf_srange r /\ Known_C15 r /\ src_int_type dev_mode r = Ok t /\ src_int_type release_mode r = Ok t /\
+                rk t = U8 /\ permitted (sr_lo r) (sr_hi r) v /\ rep64 (sr_lo r) v /\ ~ fits (rk t) v.
+Proof.
+  exists (Constrained Kw (Lit 100) false), {| rk := U8; rmin := Some 0; rmax := Some 100; rext := false |}, (-1).
+  split; [comp|]. split.
+  { split; [reflexivity|]. intros ([=] & _). }
+  split; [comp|]. split; [comp|]. split; [comp|]. split; [comp|]. split; [comp|].
+  unfold fits; cbn. lia.
+Qed.
+
+(* plain INTEGER -> u64 (pinned by the crate's tests/basic_integer.rs) *)
+Theorem C15_refuted_unconstrained :
+  exists t v, Known_C15 Unconstrained /\ src_int_type dev_mode Unconstrained = Ok t /\ rk t = U64 /\
+              permitted Kw Kw v /\ rep64 Kw v /\ ~ fits (rk t) v.
+Proof.
+  exists {| rk := U64; rmin := None; rmax := None; rext := false |}, (-1).
+  split.
+  { split; [reflexivity|]. intros ([=] & _). }
+  split; [comp|]. split; [comp|]. split; [comp|]. split; [comp|].
+  unfold fits; cbn. lia.
+Qed.
+
+(* INTEGER (1..MAX) -> u64 with upper bound and value_max() = i64::MAX *)
+Theorem C15_refuted_max_keyword :
+  exists r t b, wf_srange r /\ ~ Known_C15 r /\ Known_max_keyword_i64max_on_u64 r /\
+                src_int_type dev_mode r = Ok t /\ rk t = U64 /\
+                min_max_fn_text dev_mode t = Ok (U64, [49], b) /\
+                parse_num b = Some i64_max /\ rmax t = Some i64_max /\ i64_max <> declared_hi r (rk t).
+Proof.
+  exists (Constrained (Lit 1) Kw false), {| rk := U64; rmin := Some 1; rmax := Some i64_max; rext := false |},
+         [57; 95; 50; 50; 51; 95; 51; 55; 50; 95; 48; 51; 54; 95; 56; 53; 52; 95; 55; 55; 53; 95; 56; 48; 55].
+  split; [comp|]. split.
+  { intros ([=] & _). }
+  split; [split; reflexivity|].
+  split; [comp|]. split; [comp|]. split; [comp|]. split; [comp|]. split; [comp|]. comp.
+Qed.
+
+(* non-vacuity: the hypotheses of the main theorems are inhabited by non-trivial ranges, and the model computes *)
+Example C15_nonvacuous :
+  let r := Constrained (Lit (-129)) (Lit 127) false in
+  wf_srange r /\ ~ Known_C15 r /\ sr_ext r = false /\
+  src_int_type dev_mode r = Ok {| rk := I16; rmin := Some (-129); rmax := Some 127; rext := false |} /\
+  permitted (sr_lo r) (sr_hi r) (-129) /\ rep64 (sr_lo r) (-129) /\
+  min_max_fn_text dev_mode {| rk := I32; rmin := Some (-100000); rmax := Some 1000; rext := false |}
+    = Ok (I32, [45; 49; 48; 48; 95; 48; 48; 48], [49; 95; 48; 48; 48]) /\
+  parse_num [45; 49; 48; 48; 95; 48; 48; 48] = Some (-100000) /\
+  (let r' := Constrained Kw (Lit (-5)) true in
+   wf_srange r' /\ ~ Known_C15 r' /\ src_int_type release_mode r' =
+     Ok {| rk := I64; rmin := Some i64_min; rmax := Some (-5); rext := true |}) /\
+  (let r'' := Constrained (Lit (-5)) Kw false in ~ Known_max_keyword_i64max_on_u64 r'' /\ wf_srange r'').
+Proof.
+  cbv zeta.
+  split; [comp|]. split.
+  { intros ([=] & _). }
+  split; [comp|]. split; [comp|]. split; [comp|]. split; [comp|]. split; [comp|]. split; [comp|].
+  split.
+  - split; [comp|]. split; [|comp].
+    intros (_ & H). apply H. split; [reflexivity|]. exists (-5). split; [reflexivity|lia].
+  - split; [|comp]. intros (_ & [=]).
+Qed.
+
+Print Assumptions C15_total.
+Print Assumptions C15_holds_all.
+Print Assumptions C15_narrowest.
+Print Assumptions C15_ext_is_64.
+Print Assumptions C15_accessors.
+Print Assumptions C15_declared_bounds.
+Print Assumptions C15_refuted_class.
+Print Assumptions C15_refuted_no_lower_bound.
+Print Assumptions C15_refuted_unconstrained.
+Print Assumptions C15_refuted_max_keyword.
